@@ -101,7 +101,7 @@ def histories(nclients, max_cmds=None):
                 yield il[:pos] + [("S", "stop")] + il[pos:]
 
 
-def run_history(kind, hist, tmp, cmd="num-running"):
+def run_history(kind, hist, tmp, cmd="num-running", early=None):
     """Runs one history against a real server; returns (violations, abstract states visited)."""
     loop = SLoop()
     events._set_running_loop(loop)
@@ -114,19 +114,37 @@ def run_history(kind, hist, tmp, cmd="num-running"):
     try:
         pool = SimpleTaskPool(vw.work, pool_size=3)
         srv = UnixControlServer(pool, socket_path=path) if kind == "unix" else TCPControlServer(pool, host="127.0.0.1", port=0)
-        task = loop.run_coro(srv.serve_forever())
+        if early is None:
+            task = loop.run_coro(srv.serve_forever())
+        else:
+            # the stop (cancellation of the serving task) comes `early` loop iterations after serve_forever() returned
+            async def start_and_stop():
+                t = await srv.serve_forever()
+                for _ in range(early):
+                    await asyncio.sleep(0)
+                t.cancel()
+                return t
+
+            task = loop.run_coro(start_and_stop())
         if not isinstance(task, asyncio.Task):
             viol.append("serve_forever() did not return a task")
             return viol, states
-        if task.done() or not srv.is_serving():
+        stopped = early is not None
+        if not stopped and (task.done() or not srv.is_serving()):
             viol.append("serve_forever() returned but the server is not serving")
-        if kind == "unix" and not os.path.exists(path):
+        if not stopped and kind == "unix" and not os.path.exists(path):
             viol.append("unix socket file missing while serving")
         pool.start(1)
         loop.quiesce()
-        port = None if kind == "unix" else srv._server.sockets[0].getsockname()[1]
+        port = None if kind == "unix" else srv._server.sockets[0].getsockname()[1] if srv._server.sockets else 1
         expected_running = 1
-        stopped = False
+        if stopped:
+            if srv.is_serving():
+                viol.append(("is_serving() still true after a stop that came %d loop iteration(s) after the start" % early,))
+            if not task.done():
+                viol.append(("no client ever connected but the cancelled serving task is still pending (stop %d iteration(s) after start)" % early,))
+            if kind == "unix" and os.path.exists(path):
+                viol.append(("unix socket file still exists after an early stop (%d iteration(s) after start)" % early,))
         open_clients = set()
         parked = set()  # clients whose session sits in a waiting command (until-closed on a pool that is never closed)
 
@@ -269,6 +287,8 @@ def run_history(kind, hist, tmp, cmd="num-running"):
 
 def _work(args):
     global SCALE
+    if len(args) == 4:
+        return _work_early(args)
     kind, hists, cmd = args
     tmp = tempfile.mkdtemp(prefix="ctlsock")
     out = []
@@ -296,6 +316,25 @@ def _work(args):
     finally:
         shutil.rmtree(tmp, ignore_errors=True)
     return n, sum(len(h) for h in hists), out, states
+
+
+def _work_early(args):
+    kind, hists, cmd, early = args
+    tmp = tempfile.mkdtemp(prefix="ctlsock")
+    out = []
+    states = set()
+    n = 0
+    try:
+        for hist in hists:
+            v, st = run_history(kind, hist, tmp, cmd, early=early)
+            for x in v:
+                out.append({"key": x if isinstance(x, str) else str(x[0]), "transport": kind, "history": hist, "cmd": cmd,
+                            "early_stop": early, "detail": repr(x)})
+            states.update(st)
+            n += 1
+    finally:
+        shutil.rmtree(tmp, ignore_errors=True)
+    return n, sum(len(h) for h in hists) + len(hists), out, states
 
 
 # --------------------------------------------------------------------------------------
@@ -433,6 +472,11 @@ def run(tier, seed):
         hs = list(histories(0)) + list(histories(1))
         hs += list(histories(2, max_cmds=1 if tier == "quick" else None))
         work += [(kind, hs[i::jobs], "num-running") for i in range(jobs)]
+        # the stop comes 0, 1 or 2 loop iterations after serve_forever() returned (before anything else happened)
+        after = [[e for e in h if e[0] != "S"] for h in list(histories(0)) + list(histories(1))]
+        after = [list(x) for x in {tuple(map(tuple, h)) for h in after}]
+        for early in (0, 1, 2):
+            work.append((kind, after, "num-running", early))
         # one client parked in a waiting command while the other is served
         both = [h for h in histories(2) if sum(1 for _, e in h if e == "cmd") == 2]
         hw = [h for h in both if [e for c, e in h if c == 0][-1] == "close" and [e for c, e in h if c == 1][-1] == "close"]
@@ -480,6 +524,13 @@ def replay(v):
     global SCALE
     if v.get("cli") or "history" not in v:
         return None
+    if v.get("early_stop") is not None:
+        tmp = tempfile.mkdtemp(prefix="ctlsock")
+        try:
+            viol, _ = run_history(v["transport"], [tuple(x) for x in v["history"]], tmp, v.get("cmd", "num-running"), early=v["early_stop"])
+        finally:
+            shutil.rmtree(tmp, ignore_errors=True)
+        return {"viol": repr(viol)} if viol else None
     tmp = tempfile.mkdtemp(prefix="ctlsock")
     try:
         SCALE = 10.0
